@@ -187,6 +187,47 @@ Theorem C21_prevote_descends_from_head : forall e st primary g,
 Proof. exact prevote_descends_from_head. Qed.
 Print Assumptions C21_prevote_descends_from_head.
 
+(* ---- "capped at a pending authority change", from the property text ----------------------- *)
+(* For EVERY state (no hypothesis on the votes): whatever determinePreCommit answers while a change
+   is pending at height nc carries a number <= nc; it is the pre-voted block itself or, when that
+   lies above the change, one of its ancestors (with its own number). *)
+Theorem C21_precommit_never_above_change : forall e st g nc,
+  e_next_change e = Some nc -> determine_precommit true e st = Ok g ->
+  (gv_num g <= nc)%N /\
+  exists pvb, prevoted_block e st = Ok pvb /\
+    (g = pvb \/ ((nc < gv_num pvb)%N /\ anc (e_tree e) (gv_block g) (gv_block pvb) /\
+                 gv_num g = number e (gv_block g))).
+Proof. exact precommit_capped. Qed.
+Print Assumptions C21_precommit_never_above_change.
+
+(* determinePreVote obeys the same bound, but resolves the cap with GetHeaderByNumber, i.e. ON THE
+   BEST CHAIN: the capped answer is the best chain's block of the change height -- not necessarily an
+   ancestor of the primary's block it started from (C21_prevote_cap_other_fork). *)
+Theorem C21_prevote_never_above_change : forall e st primary g nc,
+  e_next_change e = Some nc -> determine_prevote e st primary = Ok g ->
+  (gv_num g <= nc)%N /\
+  (g = uncapped_prevote e st primary \/
+   ((nc < gv_num (uncapped_prevote e st primary))%N /\ gv_num g = nc /\
+    gv_num g = number e (gv_block g) /\ anc (e_tree e) (gv_block g) (e_best e))).
+Proof. exact prevote_capped. Qed.
+Print Assumptions C21_prevote_never_above_change.
+
+Example C21_prevote_cap_other_fork :
+  let e := mkEnv [0;1;0;3] 4 2 (Some 1%N) 0 in
+  let st := mkSt [(1, mkGV 4 2%N)] [] [] [] 0 in
+  determine_prevote e st 1 = Ok (mkGV 1 1%N) /\ ancb (e_tree e) 1 4 = false /\ ancb (e_tree e) 3 4 = true.
+Proof. exact prevote_cap_other_fork. Qed.
+
+(* the reading of "an ancestor of that target" for finalisation: lib/grandpa does NOT cap
+   finalisation (C21_finalises_only_partial is stated with the uncapped ghost): with > 2/3 of the
+   precommits above a pending change the node finalises above it, while it pre-commits at it *)
+Example C21_finalisation_not_capped :
+  let e := mkEnv [0;1] 4 2 (Some 1%N) 2 in
+  let st := mkSt [(0, mkGV 2 2%N); (1, mkGV 2 2%N); (2, mkGV 2 2%N); (3, mkGV 2 2%N)]
+                 [(0, mkGV 2 2%N); (1, mkGV 2 2%N); (2, mkGV 1 1%N); (3, mkGV 2 2%N)] [] [] 0 in
+  determine_precommit true e st = Ok (mkGV 1 1%N) /\ fst (attempt_to_finalize e st) = Ok (Some 2).
+Proof. exact finalisation_not_capped. Qed.
+
 (* ---- non-vacuity ------------------------------------------------------------------------- *)
 (* 4 voters; prevotes 3, 3, 4 on the chain 0-1-2-3-4: ghost 3; a change pending at height 2 caps the
    pre-commit at block 2; precommits 2, 3, 3 finalise block 2 *)
